@@ -552,3 +552,36 @@ Proof.
   destruct k; vm_compute; split; intros H; try reflexivity; try discriminate;
     try (repeat split; discriminate); destruct H as (A & B & C); congruence.
 Qed.
+
+Lemma allowed_use_sound k : allowed_use k = true ->
+  exists u, use_kind_code u = k /\ u <> UFormat /\ u <> USerialize /\ u <> UOther.
+Proof.
+  unfold allowed_use. intros H. apply N.leb_le in H.
+  assert (C : k = 0 \/ k = 1 \/ k = 2 \/ k = 3 \/ k = 4 \/ k = 5 \/ k = 6 \/ k = 7 \/ k = 8 \/ k = 9) by lia.
+  destruct C as [-> | [-> | [-> | [-> | [-> | [-> | [-> | [-> | [-> | ->]]]]]]]]];
+    [exists UDecl | exists UMove | exists UResolve | exists UPresence | exists UBearerAuth | exists URequestHeader
+     | exists UNameProjection | exists UEnvRead | exists UEnvSet | exists UTestOnly];
+    (split; [reflexivity | repeat split; discriminate]).
+Qed.
+
+Lemma derive_allowed_sound d : derive_allowed d = true -> In d allowed_derives.
+Proof.
+  unfold derive_allowed. intros H. apply existsb_exists in H. destruct H as [a [I E]].
+  apply andb_true_iff in E. destruct E as [E1 E2].
+  apply str_eqb_eq in E1. apply N.eqb_eq in E2.
+  destruct a as [a1 a2], d as [d1 d2]. cbn [fst snd] in *. subst. exact I.
+Qed.
+
+(* what the generated obligation `uses_wf .. = true` (Gen/SecretUses.v) means *)
+Lemma uses_wf_sound uses derives found :
+  uses_wf uses derives found = true ->
+  found = true
+  /\ Forall (fun k => exists u, use_kind_code u = k /\ u <> UFormat /\ u <> USerialize /\ u <> UOther) uses
+  /\ Forall (fun d => In d allowed_derives) derives.
+Proof.
+  unfold uses_wf. intros H.
+  apply andb_true_iff in H. destruct H as [H D]. apply andb_true_iff in H. destruct H as [F U].
+  split; [exact F|]. split.
+  - apply Forall_forall. intros k I. apply allowed_use_sound. rewrite forallb_forall in U. apply U. exact I.
+  - apply Forall_forall. intros d I. apply derive_allowed_sound. rewrite forallb_forall in D. apply D. exact I.
+Qed.
